@@ -348,6 +348,38 @@ func ruleWire(c *Ctx) {
 		}
 		c.check(problem == "", "op.ScaleNote.GetDegree|found-only", c.pos(fn.Pos()), fname(fn), fmt.Sprintf("%d successful return(s), each depending on letter distance and pitch distance", n), fname(fn)+": "+problem)
 	}
+	// adding an interval to a note: the result is always searched from root pitch + interval size
+	if fn := c.fn("note", "Note.AddDegree"); fn != nil {
+		c.site(1)
+		isSize := func(v ssa.Value) bool {
+			call, ok := v.(*ssa.Call)
+			return ok && calleeName(&call.Call) == "note.Degree.Semitone"
+		}
+		isRootPitch := func(v ssa.Value) bool {
+			call, ok := v.(*ssa.Call)
+			return ok && calleeName(&call.Call) == "note.Note.Semitone"
+		}
+		problem := ""
+		n := 0
+		for _, r := range returnsOf(fn) {
+			// a return that can succeed: nil error, or the verdict of the search it delegates to
+			e := retVal(r, len(r.Results)-1)
+			if call, isCall := e.(*ssa.Call); isCall && !isNilConst(e) {
+				if n := calleeName(&call.Call); strings.HasPrefix(n, "errorx.") || n == "fmt.Errorf" {
+					continue
+				}
+			}
+			n++
+			v := retVal(r, 0)
+			if !dataDependsOn(v, isSize) || !dataDependsOn(v, isRootPitch) {
+				problem = "a note is returned that does not depend on root pitch + interval size (a shortcut hands back something else than the searched spelling)"
+			}
+		}
+		if n == 0 {
+			problem = "no successful return"
+		}
+		c.check(problem == "", "note.Note.AddDegree|found-only", c.pos(fn.Pos()), fname(fn), fmt.Sprintf("%d successful return(s), each depending on root pitch and interval size", n), fname(fn)+": "+problem)
+	}
 	// handlers: describe commands pass target / root / accidental preference through
 	for f, a := range funcAlias {
 		switch a {
@@ -362,6 +394,11 @@ func ruleWire(c *Ctx) {
 				c.site(1)
 				c.check(hasFact(facts, "store ", "[0]."+fld+" <- cmd.newWriteCmdArgsFromInputInstances(", ".instances[0]."+fld), a+"|copy-back|"+fld, c.pos(f.Pos()), a, "the resolved "+fld+" of instance 0 is printed", a+": the "+fld+" resolved from the flags is not copied into the printed first instance: `write conv --flag ... | write` plays something else than `write --flag ...`")
 			}
+		case "cmd.genCmdAttr.RunE":
+			// `crd gen attr -d N` generates exactly what the library generates for N (the embedded list is checked against that)
+			facts := c.facts(f)
+			c.site(1)
+			c.check(hasFact(facts, "call chord.GenerateAttributes(github.com/spf13/pflag.FlagSet.GetUint(github.com/spf13/cobra.Command.Flags(p0),\"maxDegree\")#0)"), a+"|max", c.pos(f.Pos()), a, "GenerateAttributes(--maxDegree)", a+": the generator is not called with the --maxDegree value itself: `crd gen attr -d N` no longer reproduces the embedded attribute list")
 		case "cmd.infoCmdChordDescribe.RunE":
 			facts := c.facts(f)
 			c.site(1)
@@ -379,6 +416,17 @@ func ruleWire(c *Ctx) {
 			facts := c.facts(f)
 			c.site(1)
 			c.check(hasFact(facts, "call op.KeyConversionChain.Convert(", "cmd.getScale(p0)#0.Key)"), a+"|start", c.pos(f.Pos()), a, "the chain starts from the --key key", a+": the conversion chain does not start from the --key key")
+			// every letter of the -c text, in order, becomes one conversion step (no rewriting of the chain text)
+			c.site(1)
+			flagText := regexp.QuoteMeta("github.com/spf13/pflag.FlagSet.GetString(github.com/spf13/cobra.Command.Flags(p0),\"command\")#0")
+			stepRe := regexp.MustCompile(`^store .*\[(next\(range\(` + flagText + `\)\)#1|i)\] <- [^ ]*\((next\(range\(` + flagText + `\)\)#2|` + flagText + `\[i\])\)(#0)?$`)
+			found := false
+			for _, ft := range facts {
+				if stepRe.MatchString(ft) {
+					found = true
+				}
+			}
+			c.check(found, a+"|letters", c.pos(f.Pos()), a, "step i = conversion of letter i of the -c text", a+": the conversion steps are not the letters of the -c text one by one (the text is rewritten or filtered first): chains that cancel or repeat are not carried out step by step")
 		}
 	}
 }
